@@ -50,6 +50,18 @@ def AT_PHNUM := 5
 def AT_ENTRY := 9
 def AT_SYSINFO_EHDR := 33
 
+/-- /proc/<pid>/auxv: (key, value) pairs of native words up to (excluding) AT_NULL; a trailing
+    incomplete pair ends the listing (the reader reports it as a soft error) -/
+def auxvPairsGo : Nat → Bytes → List (Nat × Nat)
+  | 0, _ => []
+  | n+1, bs =>
+    if bs.length < 16 then [] else
+    let k := unle (bs.take 8)
+    let v := unle ((bs.drop 8).take 8)
+    if k == 0 then [] else (k, v) :: auxvPairsGo n (bs.drop 16)
+
+def auxvPairs (bs : Bytes) : List (Nat × Nat) := auxvPairsGo (bs.length / 16 + 1) bs
+
 /-- `From<DirectAuxvDumpInfo>`: zero means unset -/
 def auxvFromDirect (phnum phdr gate entry : Nat) : AuxvInfo :=
   ⟨if phnum > 0 then some phnum else none, if phdr > 0 then some phdr else none,
